@@ -8,6 +8,12 @@
 //   rxudp <n> <datagram>*             udp/client.Conn.Process called n times with ONE buffer that is overwritten
 //         after every call, the first handler blocking meanwhile.
 //
+//   rxmon <tcp-client|tcp-server|udp> <split> <n> <frame>*   the same connections (tcp-server: the connection a real
+//         tcp.Server makes for an accepted stream, options only) with a REQUEST MONITOR that drops every message whose
+//         code is 0.04 (DELETE).  Stream frames are written in chunks of <split> bytes (0 = one write: a dropped frame and
+//         the frame behind it are parsed by the same processBuffer call).  Output `rxm <delivered> | <msg> | …`: a
+//         message decoded behind a dropped one must have the fields of a fresh decode of its own bytes.
+//
 // Output: `rx <delivered> | <msg 0 on handler entry> | <msg 0 after the overwrite> | <msg 1> | …` — every message
 // as the application sees it after the later input has been read.
 package c02rx
@@ -21,8 +27,10 @@ import (
 	"testing"
 	"testing/synctest"
 
+	"github.com/plgd-dev/go-coap/v3/message/codes"
 	"github.com/plgd-dev/go-coap/v3/message/pool"
 	"github.com/plgd-dev/go-coap/v3/net/responsewriter"
+	"github.com/plgd-dev/go-coap/v3/options"
 	tcpclient "github.com/plgd-dev/go-coap/v3/tcp/client"
 	udpclient "github.com/plgd-dev/go-coap/v3/udp/client"
 	"verifharness/codecx"
@@ -168,6 +176,109 @@ func runUDP(t *testing.T, dgrams [][]byte) (out string) {
 	return out
 }
 
+// plain is a non-blocking recorder: every delivered message as its handler sees it.
+type plain struct {
+	mu    sync.Mutex
+	coder string
+	msgs  []string
+}
+
+func (r *plain) handle(m *pool.Message) {
+	s, err := codecx.Snapshot(m)
+	l := "snapshot-failed"
+	if err == nil {
+		l = codecx.FmtMsg(r.coder, &s)
+	}
+	r.mu.Lock()
+	r.msgs = append(r.msgs, l)
+	r.mu.Unlock()
+}
+
+func (r *plain) line() string {
+	r.mu.Lock()
+	defer r.mu.Unlock()
+	if len(r.msgs) == 0 {
+		return "rxm 0"
+	}
+	return fmt.Sprintf("rxm %d | %s", len(r.msgs), strings.Join(r.msgs, " | "))
+}
+
+func dropDelete(code codes.Code) bool { return code == codes.DELETE }
+
+func runMonTCP(t *testing.T, viaServer bool, split int, frames [][]byte) (out string) {
+	synctest.Test(t, func(t *testing.T) {
+		rec := &plain{coder: "tcp"}
+		handler := func(_ *responsewriter.ResponseWriter[*tcpclient.Conn], req *pool.Message) { rec.handle(req) }
+		monitor := tcpclient.RequestMonitorFunc(func(_ *tcpclient.Conn, req *pool.Message) (bool, error) {
+			return dropDelete(req.Code()), nil
+		})
+		var cc *tcpclient.Conn
+		var peer *mem.TCPPeer
+		var err error
+		stop := func() {}
+		if viaServer {
+			cc, peer, stop, err = mem.NewTCPConnViaServer("c02rx-peer", options.WithReceivedMessageQueueSize(128),
+				options.WithHandlerFunc(handler), options.WithRequestMonitor(monitor))
+		} else {
+			cc, peer, err = mem.NewTCPConn(mem.TCPOpts{Mutate: func(cfg *tcpclient.Config) {
+				cfg.ReceivedMessageQueueSize = 128
+				cfg.BlockwiseEnable = false
+				cfg.Handler = handler
+				cfg.RequestMonitor = monitor
+			}})
+		}
+		if err != nil {
+			out = "conn-error"
+			return
+		}
+		synctest.Wait()
+		var all []byte
+		for _, f := range frames {
+			all = append(all, f...)
+		}
+		for _, c := range chunks(all, split) {
+			_ = peer.Write(append([]byte(nil), c...))
+			synctest.Wait()
+		}
+		out = rec.line()
+		_ = cc.Close()
+		if viaServer {
+			stop()
+		} else {
+			peer.Close()
+		}
+		synctest.Wait()
+	})
+	return out
+}
+
+func runMonUDP(t *testing.T, dgrams [][]byte) (out string) {
+	synctest.Test(t, func(t *testing.T) {
+		rec := &plain{coder: "udp"}
+		cc, _ := mem.NewUDPConn(mem.UDPOpts{Mutate: func(cfg *udpclient.Config) {
+			cfg.ReceivedMessageQueueSize = 128
+			cfg.Handler = func(_ *responsewriter.ResponseWriter[*udpclient.Conn], req *pool.Message) { rec.handle(req) }
+		}, ConnOpts: []udpclient.Option{udpclient.WithRequestMonitor(func(_ *udpclient.Conn, req *pool.Message) (bool, error) {
+			return dropDelete(req.Code()), nil
+		})}})
+		synctest.Wait()
+		buf := make([]byte, 4096)
+		for _, d := range dgrams {
+			n := copy(buf, d)
+			_ = cc.Process(nil, buf[:n])
+			synctest.Wait()
+			for i := range buf {
+				buf[i] = 0xEE
+			}
+		}
+		synctest.Wait()
+		out = rec.line()
+		_ = cc.Close()
+		synctest.Wait()
+	})
+	return out
+}
+
 func parseHexList(f []string) ([][]byte, bool) {
 	out := make([][]byte, 0, len(f))
 	for _, s := range f {
@@ -201,6 +312,25 @@ func TestC02RX(t *testing.T) {
 					return "bad-op"
 				}
 				return runTCP(t, split, fr[:na], fr[na:])
+			case len(f) >= 4 && f[0] == "rxmon":
+				split, e1 := strconv.Atoi(f[2])
+				n, e2 := strconv.Atoi(f[3])
+				if e1 != nil || e2 != nil || len(f) != 4+n {
+					return "bad-op"
+				}
+				fr, ok := parseHexList(f[4:])
+				if !ok {
+					return "bad-op"
+				}
+				switch f[1] {
+				case "tcp-client":
+					return runMonTCP(t, false, split, fr)
+				case "tcp-server":
+					return runMonTCP(t, true, split, fr)
+				case "udp":
+					return runMonUDP(t, fr)
+				}
+				return "bad-op"
 			case len(f) >= 2 && f[0] == "rxudp":
 				n, e := strconv.Atoi(f[1])
 				if e != nil || len(f) != 2+n {
